@@ -69,7 +69,9 @@ def resolve_signature_typehint_default(annotation: Any) -> Validator[Any]:
 
         return DecimalValidator(coerce=None)
     elif _is_typed_dict_cls(annotation):
-        return TypedDictValidator(annotation)
+        return TypedDictValidator(
+            annotation, typehint_resolver=resolve_signature_typehint_default
+        )
     elif annotation is UUID:
         return UUIDValidator(coerce=None)
     elif annotation is date:
@@ -79,9 +81,17 @@ def resolve_signature_typehint_default(annotation: Any) -> Validator[Any]:
     elif annotation_is_naked_tuple(annotation):
         return UniformTupleValidator(always_valid, coerce=None)
     elif is_dataclass(annotation):
-        return DataclassValidator(annotation, coerce=dataclass_no_coerce(annotation))
+        return DataclassValidator(
+            annotation,
+            coerce=dataclass_no_coerce(annotation),
+            typehint_resolver=resolve_signature_typehint_default,
+        )
     elif annotation_is_namedtuple(annotation):
-        return NamedTupleValidator(annotation, coerce=namedtuple_no_coerce(annotation))
+        return NamedTupleValidator(
+            annotation,
+            coerce=namedtuple_no_coerce(annotation),
+            typehint_resolver=resolve_signature_typehint_default,
+        )
     else:
         origin, args = get_origin(annotation), get_args(annotation)
         if annotation_is_naked_tuple(origin):
